@@ -498,6 +498,7 @@ pdgstrf_WorkInit(int_t n, int_t panel_size, int_t **iworkptr, double **dworkptr)
 	*dworkptr = (double *) SUPERLU_MALLOC((size_t) dsize);
     if ( ! *dworkptr ) {
 	printf("malloc fails for local dworkptr[] ... dsize " IFMT "\n", dsize);
+	SUPERLU_FREE (*iworkptr); /* system space: the caller gets no work arrays */
 	return (isize + dsize + n);
     }
 	
